@@ -733,10 +733,48 @@ func init() {
 		Explanation: "Static pairing rules (path automata over the SSA CFG): R19.a every path of every client-driven goroutine root to a return closes the accepted socket (Close, deferred Close, or hand-over to another checked root), and Conn.Close closes the embedded socket unless flagged closed; R19.b AddConn is followed on every path by a registered deferred RemoveConn of the same connection, with matching keys; R19.c accept loops hand every accepted socket to a goroutine or close it; R19.d nothing blocks after the request loop; R19.e Stop closes the listeners and sweeps every registered connection. Decides release on every control-flow path; does not decide descriptor/goroutine counts at run time or a peer that never reads."})
 }
 
+// ruleReplyBufferLocal: R07.d — replies are serialized into storage no other connection can touch.
+func ruleReplyBufferLocal(c *Ctx, rid string) {
+	c.rule(rid, "the serializers build each reply in a buffer allocated by that call (no package-level, pooled or otherwise shared buffer whose bytes another connection's goroutine could overwrite before they are written)")
+	for _, name := range [][2]string{{"Message", "RESPBytes"}, {"Array", "RESPBytes"}} {
+		fn := c.P.Method(pkgProto, name[0], name[1])
+		if !c.anchor(rid, fn, "proto."+name[0]+"."+name[1]) {
+			continue
+		}
+		key := name[0] + "." + name[1] + "/buffer"
+		buf := outputBuffer(fn)
+		shared := ""
+		allInstrs(fn, func(ins ssa.Instruction) {
+			if call, ok := ins.(*ssa.Call); ok {
+				if n := calleeName(call.Common()); strings.HasPrefix(n, "(*sync.Pool).") {
+					shared = n
+				}
+				if cal := staticCallee(call.Common()); cal != nil && inRepo(cal) && c.P.reachesCallNamed(cal, "(*sync.Pool).Get", "(*sync.Pool).Put") {
+					shared = "sync.Pool via " + fnName(cal)
+				}
+			}
+			if ld, ok := ins.(*ssa.UnOp); ok {
+				if g, ok := ld.X.(*ssa.Global); ok && strings.Contains(g.Type().String(), "bytes.Buffer") {
+					shared = "package-level buffer " + g.Name()
+				}
+			}
+		})
+		switch {
+		case shared != "":
+			c.bad(rid, key, c.P.pos(fn.Pos()), "the reply is built in shared storage ("+shared+"): the bytes handed to the connection can be overwritten by another connection's reply before they are written")
+		case buf == nil:
+			c.undecided(rid, key, c.P.pos(fn.Pos()), "the output buffer of the serializer is not a local bytes.Buffer: its ownership was not established")
+		default:
+			c.ok(rid, key, c.P.pos(fn.Pos()), "reply built in a buffer allocated by this call")
+		}
+	}
+}
+
 func runC07(c *Ctx) {
 	rulePanicBarrier(c, "R07.a")
 	ruleNoExit(c, "R07.b")
 	ruleAcceptLoops(c, "R07.c")
+	ruleReplyBufferLocal(c, "R07.d")
 	c.assume("handlers do not call os.Exit themselves; stack exhaustion and out-of-memory are not recoverable and not decided")
 }
 
